@@ -223,7 +223,8 @@ def build(sc, sd):
         ai_bad=ai["azure_openai"] not in ("none", "both-empty") or ai["llama"] in ("key-only", "endpoint-only", "key+empty-endpoint", "endpoint+empty-key"),
         out_unwritable=out in ("directory", "missing-parent", "through-file", "devfull"),
         # the report names a changed file whose path cannot be encoded (only when the trigger codemod runs)
-        report_unencodable=bool(sc.get("badname")) and sel in ("include", "include-twice", "unknown-id"),
+        # (a repeated --codemod-include keeps the last value: the trigger codemod must be in that one)
+        report_unencodable=bool(sc.get("badname")) and CODEMOD in ([argv[i + 1] for i, t in enumerate(argv[:-1]) if t == "--codemod-include"] or [""])[-1].split(","),
         out_path=str(out_path) if out_path is not None else None,
         out_kind=out,
     )
